@@ -97,7 +97,7 @@ def o2_rx(ctx, count, dynamic):
     ctx.reached()
 
 
-def o3_link(ctx, count, pipe, pl, rate, via, reenter=False):
+def o3_link(ctx, count, pipe, pl, rate, via, reenter=False, history=False):
     dynamic = pl is None
     from circuitpython_nrf24l01.rf24 import RF24
     clock = fresh_env(ctx)
@@ -112,6 +112,14 @@ def o3_link(ctx, count, pipe, pl, rate, via, reenter=False):
     ask = ctx.bit("ask_no_ack")
     addr = ctx.bytes("addr", 5)
     base = ctx.bytes("base", 5)
+    if history:
+        # "configured compatibly" is about the final values: A first had every field on another value
+        a.channel = (chan + 1) % 126
+        a.data_rate = {1: 2, 2: 250, 250: 2}[rate]
+        a.crc = (crc + 1) % 3
+        a.address_length = 3 + (aw - 2) % 3
+        a.dynamic_payloads = not dynamic
+        a.payload_length = 7
     for n in (a, b):
         n.channel = chan
         n.data_rate = rate
@@ -172,7 +180,7 @@ def o3_link(ctx, count, pipe, pl, rate, via, reenter=False):
     ctx.reached()
 
 
-def o3_pingpong(ctx, pipe, pl, reply):
+def o3_pingpong(ctx, pipe, pl, reply, tx_open_in_rx=False):
     """two transceivers: each reads on `pipe` at its own address and transmits to the peer's.  A -> B two payloads; B
     answers (send_only: its RX FIFO is not its business) BEFORE reading them; then both sides read: everything handed to
     send() arrives byte-for-byte, once, in order, in both directions"""
@@ -216,9 +224,18 @@ def o3_pingpong(ctx, pipe, pl, reply):
     ctx.check(res == [True, True], "A's send() reports success on a loss-free compatible link")
     a.listen = True
     ctx.check(b.available() == True, "B sees A's payload")  # noqa: E712
-    b.listen = False
-    b.open_tx_pipe(addr_a)
-    if reply == "list":
+    if tx_open_in_rx:
+        b.open_tx_pipe(addr_a)  # (allowed while listening; the role change below comes afterwards)
+        b.listen = False
+        if pipe == 0 and reply != "none":
+            b.open_tx_pipe(addr_a)  # pipe 0 carries the reading address again: the TX pipe is re-opened in TX mode (C08)
+    else:
+        b.listen = False
+        b.open_tx_pipe(addr_a)
+    if reply == "none":  # B only visits TX mode (the TX pipe was opened while it listened) and comes back without sending
+        res = [True, True]
+        r = []
+    elif reply == "list":
         res = b.send(list(r), False, 0, True)
     elif reply == "list_kw":
         res = b.send(list(r), send_only=True, force_retry=2)
@@ -235,6 +252,15 @@ def o3_pingpong(ctx, pipe, pl, reply):
             ctx.check(got is not None and len(got) == len(exp), name + ": read() has the right length")
             ctx.check(bytes_eq(got, exp), name + ": read() returns the payload byte-for-byte")
         ctx.check(nrf.available() == False, name + ": exactly once: nothing else arrives")  # noqa: E712
+    # third leg: A transmits again, B (back in RX mode) still hears it on the same pipe
+    a.listen = False
+    a.open_tx_pipe(addr_b)
+    m3 = ctx.bytes("m3", 4)
+    ctx.check(a.send(m3) == True, "A's second send() succeeds")  # noqa: E712
+    exp = blist(m3) if dynamic else pad_trunc(blist(m3), pl)
+    ctx.check(b.available() == True and b.pipe == pipe, "B has A's second message on the same pipe")  # noqa: E712
+    got = b.read()
+    ctx.check(got is not None and len(got) == len(exp) and bool(bytes_eq(got, exp)), "B: read() returns it byte-for-byte")
     ctx.check(not ra.unspecified and not rb.unspecified, "no use of radio behaviour the specification leaves open")
     ctx.reached()
 
@@ -261,12 +287,16 @@ def jobs(tier):
                   and (r == 1 or pl in (None, 1, 32))]
     for c, p, pl, r, v in combos:
         out.append(Job("O3-link", o3_link, dict(count=c, pipe=p, pl=pl, rate=r, via=v), cost=5 * c))
+    for p, pl, r in ((1, None, 1), (4, 5, 250), (0, 32, 2)):
+        out.append(Job("O3-link-after-a-configuration-history", o3_link, dict(count=1, pipe=p, pl=pl, rate=r, via="send", history=True), cost=6))
     for p, pl in ((1, None), (3, 5), (0, 32)):
         out.append(Job("O3-link-after-context-re-entry", o3_link, dict(count=2, pipe=p, pl=pl, rate=1, via="send", reenter=True), cost=10))
     for pipe in ((0, 1, 5) if tier == "quick" else range(6)):
         for pl in ((None, 4) if tier == "quick" else (None, 1, 4, 32)):
             for reply in ("list", "single") if tier == "quick" else ("list", "list_kw", "single"):
                 out.append(Job("O3-link-both-directions", o3_pingpong, dict(pipe=pipe, pl=pl, reply=reply), cost=12))
+        out.append(Job("O3-link-both-directions", o3_pingpong, dict(pipe=pipe, pl=None, reply="single", tx_open_in_rx=True), cost=12))
+        out.append(Job("O3-link-both-directions", o3_pingpong, dict(pipe=pipe, pl=4, reply="none", tx_open_in_rx=True), cost=12))
     return out
 
 
